@@ -22,6 +22,8 @@ def make_replay(pid, v, seed):
            'verifier_output': v['verus'], 'witness': None, 'seed': seed}
     found = False
     try:
+        if os.environ.get('VERIF_NO_WITNESS_SEARCH'):
+            raise RuntimeError('witness search disabled (VERIF_NO_WITNESS_SEARCH)')
         from .mirrors import search
         w = search(pid, v, seed)
         if w is not None:
